@@ -30,37 +30,36 @@ def run(ctx):
     f = ctx.need_fn("E2.diagonal", "TimeCryptCiphertext<C>::decrypt")
     if f is not None:
         ev = evaluate(f)
-        n, _ = check_arm_purity(ctx, "E2-A", P, [f])
-        ctx.floor("E2-A", "scheme switches in TimeCryptCiphertext::decrypt", n, 2)
+        check_arm_purity(ctx, "E2-A", P, [f])
         us = [s for s in ev.sites.values() if s.callee[0] == "BlsTimeCrypt::unseal"]
-        ctx.ob("E2.diagonal.anchor", f.key, len(us) == 1, "%d call(s) to unseal" % len(us), where=where(f))
-        if us:
-            s = us[0]
-            a = [strip_sites(x) for x in s.args]
-            names = [(F.projection_root(x)[0].a[1] + F.projection_root(x)[1]) if F.projection_root(x) else None for x in a[:3]]
-            ctx.ob("E6.fields", f.key, names == ["self.u", "self.v", "self.w"], "unseal receives (u, v, w) of the ciphertext itself: %s" % names, where=where(f, s.bb))
-            # the (signature, flag) pair: every alternative with flag 1 must come from a diagonal arm
-            pair_defs = []
-            for b in sorted(f.cfg.reachable):
-                for st in f.blocks[b]["stmts"]:
-                    if st["k"] == "assign" and "agg" in st["rv"] and "tuple" in st["rv"]["agg"] and len(st["rv"]["ops"]) == 2:
-                        val = ev.exit_state[b].get(st["place"]["l"])
-                        if val is not None and val.op == "agg" and len(val.a[1]) == 2:
-                            fm = G.formula(val.a[1][1], P)
-                            if fm in (G.TRUE, G.FALSE):
-                                pair_defs.append((b, val, fm))
-            ctx.ob("E2.diagonal.anchor", f.key + "/pairs", len(pair_defs) >= 4, "%d (signature, flag) alternatives built" % len(pair_defs), where=where(f))
-            for b, val, fm in pair_defs:
-                sc = scheme_context(P, f, b)
-                sig_v = {v for a_, v, _, _ in sc if a_ == "Signature" and isinstance(v, str)}
-                sch_v = {v for a_, v, _, _ in sc if a_ == "SignatureSchemes" and isinstance(v, str)}
-                sigterm = strip_sites(val.a[1][0])
-                if fm == G.TRUE:
-                    ok = len(sig_v) == 1 and sig_v == sch_v and F.projection_root(sigterm) is not None and F.projection_root(sigterm)[0].a[1] == "sig"
-                    ctx.ob("E2.diagonal", "%s/flag1@%s" % (f.key, sorted(sig_v)), ok, "flag 1 only when signature variant %s == ciphertext scheme %s, with the caller's signature point" % (sorted(sig_v), sorted(sch_v)), where=where(f, b))
+        ctx.ob("E2.diagonal.anchor", f.key, len(us) >= 1, "%d call(s) to unseal" % len(us), where=where(f))
+        from . import spec as SP
+
+        npairs = 0
+        for assume in SP.assumptions(P, f):
+            if len(assume) < 2:
+                continue
+            sv = assume.get(("sig", ""))
+            cv = assume.get(("self", ".scheme"))
+            sev = evaluate(f, assume)
+            calls = [x for _, x in sorted(sev.sites.items()) if x.callee[0] == "BlsTimeCrypt::unseal"]
+            if not calls:
+                ctx.ob("E2.diagonal", "%s@%s/%s" % (f.key, sv, cv), False, "no unseal call is reached for signature variant %s and ciphertext scheme %s" % (sv, cv), where=where(f))
+                continue
+            for c in calls:
+                npairs += 1
+                a = [strip_sites(x) for x in c.args]
+                names = [(F.projection_root(x)[0].a[1] + F.projection_root(x)[1]) if F.projection_root(x) else None for x in a[:3]]
+                flag = G.formula(c.args[4], P)
+                sigarg = a[3]
+                if sv == cv:
+                    r = F.projection_root(sigarg)
+                    ok = flag == G.TRUE and r is not None and r[0].a[1] == "sig" and names == ["self.u", "self.v", "self.w"]
+                    ctx.ob("E2.diagonal", "%s@%s/%s" % (f.key, sv, cv), ok, "matching variants: unseal gets the caller's signature point, this ciphertext's (u,v,w) and flag 1 (flag=%s, sig=%s)" % (G.show_f(flag), show(sigarg, 3)), where=where(f, c.bb))
                 else:
-                    ok = sigterm.op == "call" and B.cname(sigterm) == "Default::default"
-                    ctx.ob("E2.diagonal", "%s/flag0" % f.key, ok, "mismatch arm passes the default point with flag 0: %s" % show(sigterm, 3), where=where(f, b))
+                    ok = flag == G.FALSE and not any(t.op == "param" and t.a[1] == "sig" for t in subterms(sigarg))
+                    ctx.ob("E2.diagonal", "%s@%s/%s" % (f.key, sv, cv), ok, "mismatching variants: unseal gets flag 0 and not the caller's signature (flag=%s, sig=%s)" % (G.show_f(flag), show(sigarg, 3)), where=where(f, c.bb))
+        ctx.floor("E2.diagonal", "(signature variant, ciphertext scheme) pairs", npairs, 9)
     # open flag
     u = ctx.need_fn("E4.flag", "BlsTimeCrypt::unseal")
     if u is not None:
@@ -161,42 +160,36 @@ def _canon(s):
 
 
 def check_signer_sealer(ctx, P):
-    """Sibling agreement: for every scheme arm of encrypt_time_lock the (tag, framing of the identifier) hashed by
-    seal is the construction that scheme's signer hashes for message = identifier (own key = recipient key)."""
+    """Sibling agreement: for every scheme the (tag, framing of the identifier) hashed by seal is the construction that
+    scheme's signer hashes for message = identifier (own key = recipient key).  Decided on the scheme-specialised
+    evaluation of encrypt_time_lock, so the shape of the dispatch (one match, two matches, hoisted call, mapper) is irrelevant."""
+    from . import spec as SP
+    from .common import TAG_CONSTS
+
     f = ctx.need_fn("E3.signer", "PublicKey<C>::encrypt_time_lock")
     if f is None:
         return
-    ev = evaluate(f)
     rows = K.core_call_table(ctx, P)
     sign_nf = {}
     for r in rows:
         if r["sink"].endswith("core_sign") and r["fn"].name == "sign":
             sign_nf[SCHEME_TRAITS[r["fn"].trait_default_of]] = (r["tag"], _canon(K._canon_nf(r)))
     n = 0
-    for bb, s in sorted(ev.sites.items()):
-        if s.callee[0] != "BlsTimeCrypt::seal":
+    for assume in SP.assumptions(P, f):
+        V = SP.variant_of(assume)
+        if not assume or V is None:
             continue
-        sc = scheme_context(P, f, bb)
-        schemes = None
-        for a_, v, _, _ in sc:
-            if a_ == "SignatureSchemes":
-                vs = {v} if isinstance(v, str) else set(v)
-                schemes = vs if schemes is None else schemes & vs
-        dst = strip_sites(s.args[3])
-        tags = {t.a[0] for t in subterms(dst) if t.op == "assoc"}
-        idsegs = B.nf(ev, inline(P, s.args[2], 2, only=K.local_inliner(P)))
-        sealed = _canon(B.show_nf(idsegs))
-        pk_arg = F.projection_root(strip_sites(s.args[0]))
-        for sch in sorted(schemes or {"Basic", "MessageAugmentation", "ProofOfPossession"}):
+        ev = evaluate(f, assume)
+        for bb, s in sorted(ev.sites.items()):
+            if s.callee[0] != "BlsTimeCrypt::seal":
+                continue
             n += 1
-            want = sign_nf.get(sch)
-            ok = want is not None and sealed == want[1] and (want[0] in tags) and pk_arg is not None and pk_arg[0].a[1] == "self"
-            ctx.ob(
-                "E3.signer",
-                "encrypt_time_lock/%s" % sch,
-                ok,
-                "scheme %s: sealing hashes `%s` under %s for the recipient key; the %s signer hashes `%s` under %s" % (sch, sealed, sorted(tags), sch, want[1] if want else None, want[0] if want else None),
-                where=where(f, bb),
-                sample={"scheme": sch, "sealed_id": sealed, "signed": want[1] if want else None},
-            )
-    ctx.floor("E3.signer", "scheme arms of encrypt_time_lock reaching seal", n, 3)
+            tagt = B.peel(strip_sites(SP.spec_inline(P, ev, s.args[3], 2)))
+            tag = tagt.a[0] if tagt.op == "assoc" else None
+            idt = SP.spec_inline(P, ev, s.args[2], 2, stop=lambda g: not K.local_inliner(P)(g))
+            sealed = _canon(B.show_nf(B.nf(ev, idt)))
+            pk_arg = F.projection_root(strip_sites(s.args[0]))
+            want = sign_nf.get(V)
+            ok = want is not None and sealed == want[1] and tag == want[0] and pk_arg is not None and pk_arg[0].a[1] == "self"
+            ctx.ob("E3.signer", "encrypt_time_lock/%s" % V, ok, "scheme %s: sealing hashes `%s` under %s for the recipient key; the %s signer hashes `%s` under %s" % (V, sealed, tag, V, want[1] if want else None, want[0] if want else None), where=where(f, bb), sample={"scheme": V, "sealed_id": sealed, "signed": want[1] if want else None})
+    ctx.floor("E3.signer", "schemes of encrypt_time_lock reaching seal", n, 3)
